@@ -10,6 +10,27 @@ from .core import (PathEnd, Undecided, PyRaise, ReturnSig, BreakSig, ContinueSig
 from .frontend import ClassInfo, FuncInfo
 
 
+def _fold_int(e):
+    """value of a module-level constant written as integer arithmetic (1 << 16, 64 * 1024, -1): None if it is anything else"""
+    try:
+        if isinstance(e, ast.Constant):
+            return e.value if isinstance(e.value, int) and not isinstance(e.value, bool) else None
+        if isinstance(e, ast.UnaryOp) and isinstance(e.op, ast.USub):
+            v = _fold_int(e.operand)
+            return None if v is None else -v
+        if isinstance(e, ast.BinOp):
+            a, b = _fold_int(e.left), _fold_int(e.right)
+            if a is None or b is None:
+                return None
+            ops = {ast.Add: lambda: a + b, ast.Sub: lambda: a - b, ast.Mult: lambda: a * b, ast.LShift: lambda: a << b if 0 <= b < 64 else None,
+                   ast.Pow: lambda: a ** b if 0 <= b < 64 else None, ast.FloorDiv: lambda: a // b if b else None}
+            f = ops.get(type(e.op))
+            return f() if f else None
+    except Exception:
+        return None
+    return None
+
+
 class Frame:
     def __init__(self, fi, parent=None, module=None):
         self.fi = fi
@@ -343,6 +364,9 @@ class InterpBase:
                 return self.const(e.value)
             if isinstance(e, ast.Call) and ast.unparse(e.func) in ('get_logger', 'logging.getLogger'):
                 return LOGGER
+            folded = _fold_int(e)
+            if folded is not None:
+                return VInt(folded)
             raise Undecided(f'module constant {name} = {ast.unparse(e)}')
         raise Undecided(f'resolution {r}')
 
